@@ -149,6 +149,19 @@ func typesetCatalog() []tsVal {
 // order; an embedded struct is searched first; then the json tag, then the Go name.
 func lookupField(v reflect.Value, name string) (reflect.Value, bool) {
 	t := v.Type()
+	// Go's selector rule: the struct's own fields shadow promoted ones
+	for i := 0; i < t.NumField(); i++ {
+		f := t.Field(i)
+		if !bridge.ExportedName(f.Name) {
+			continue
+		}
+		if tag := strings.Split(f.Tag.Get("json"), ",")[0]; tag != "" && tag != "-" && tag == name {
+			return v.Field(i), true
+		}
+		if f.Name == name {
+			return v.Field(i), true
+		}
+	}
 	for i := 0; i < t.NumField(); i++ {
 		f := t.Field(i)
 		if !bridge.ExportedName(f.Name) {
